@@ -29,7 +29,7 @@ EPS = 1e-6
 def plan(tier, seed):
     if tier == "quick":
         return [{"tier": tier, "seed": seed, "shard": i, "n": 6, "subprocess": True} for i in range(12)]
-    return [{"tier": tier, "seed": seed, "shard": i, "n": 150, "subprocess": True} for i in range(32)]
+    return [{"tier": tier, "seed": seed, "shard": i, "n": 350, "subprocess": True} for i in range(32)]
 
 
 def pick_config(r, case):
